@@ -80,6 +80,29 @@ class Func:
         return f"<Func {self.mod}:{self.qual}>"
 
 
+def normalise_tree(tree: ast.AST) -> None:
+    """Behaviour-preserving normal form applied to every module before any rule looks at it:
+    `x = EXPR` immediately followed by `return x` (x a plain local) becomes `return EXPR` (keeps the position of EXPR's statement).
+    Rules therefore see the same program whether or not a result is named before being returned."""
+    for fn in ast.walk(tree):
+        if not isinstance(fn, (ast.FunctionDef, ast.AsyncFunctionDef)):
+            continue
+        declared = {n for g in ast.walk(fn) if isinstance(g, (ast.Global, ast.Nonlocal)) for n in g.names}
+        captured = {x.id for inner in ast.walk(fn) if isinstance(inner, (ast.FunctionDef, ast.Lambda)) and inner is not fn for x in ast.walk(inner) if isinstance(x, ast.Name)}
+        for holder in ast.walk(fn):
+            for field in ("body", "orelse", "finalbody"):
+                body = getattr(holder, field, None)
+                if not isinstance(body, list) or len(body) < 2:
+                    continue
+                a, r = body[-2], body[-1]
+                if isinstance(r, ast.Return) and isinstance(r.value, ast.Name) and isinstance(a, ast.Assign) and len(a.targets) == 1 \
+                        and isinstance(a.targets[0], ast.Name) and a.targets[0].id == r.value.id and a.targets[0].id not in declared | captured:
+                    nr = ast.Return(value=a.value)
+                    ast.copy_location(nr, a)
+                    nr.end_lineno, nr.end_col_offset = getattr(a, "end_lineno", None), getattr(a, "end_col_offset", None)
+                    body[-2:] = [nr]
+
+
 class Index:
     def __init__(self, repo: str):
         self.repo = os.path.abspath(repo)
@@ -117,6 +140,7 @@ class Index:
                         tree = ast.parse(src, p)
                 except SyntaxError as e:
                     raise AnalysisError("E0", f"{p} does not parse: {e}")
+                normalise_tree(tree)
                 self.mods[name] = Module(name, p, os.path.relpath(p, self.repo), src, tree)
         self.digest = h.hexdigest()[:16]
         for m in self.mods.values():
